@@ -8,7 +8,8 @@
    no_compound (known finding 1 otherwise): in the packages that can be selected no active any-of /
    exactly-one-of / at-most-one-of group has a group as an alternative. *)
 From LC Require Import Lib.Bytes Model.Resolve Model.Profile Cases.C05
-  Proofs.ResolveP Proofs.ClosureP Proofs.StageP Proofs.ProfileP Proofs.OrderP Proofs.TerminateP Proofs.C05P Proofs.C05W Proofs.C05T.
+  Proofs.ResolveP Proofs.ClosureP Proofs.StageP Proofs.ProfileP Proofs.OrderP Proofs.TerminateP Proofs.C05P Proofs.C05W Proofs.C05T Proofs.C05L.
+From LC Require Model.PMSGrammar.
 Import C05.
 
 (* the per-case statement evaluated on implementation output by the correspondence check *)
@@ -146,8 +147,42 @@ Theorem C05_empty_group_example :
     = ROk [bs "app-misc/top-1"; bs "sys-libs/liba-1"; bs "sys-libs/libb-2"; bs "sys-libs/libc-3"] /\
   spec (witness_empty no_obs)
        (MkObs (ROk [bs "app-misc/top"]) (ROk [bs "app-misc/top-1"; bs "sys-libs/liba-1"]) (ROk [bs "app-misc/top"])
-              (ROk [bs "app-misc/top-1"; bs "sys-libs/liba-1"]) (ROk [bs "app-misc/top-1"; bs "sys-libs/liba-1"])) = false.
+              (ROk [bs "app-misc/top-1"; bs "sys-libs/liba-1"]) (ROk [bs "app-misc/top-1"; bs "sys-libs/liba-1"])
+              (o_listed (model (witness_empty no_obs))) (o_loaded (model (witness_empty no_obs)))) = false.
 Proof.
   vm_compute. repeat split; reflexivity.
 Qed.
 Print Assumptions C05_empty_group_example.
+
+(* ---- round 5b: the installed packages are the generator's database, the loader's reading of it is observed ----
+   c_vdb (directories, package names, slot keys) is what the harness wrote, read by the harness: db_tied in wf
+   ties every name to PF (PF = name "-" version, version of the PMS 3.2 syntax) and every slot key to the SLOT
+   text (before "/").  What vdb.GetInstalledPackageList returned is the observation o_loaded, what
+   fs.Readdirnames listed is o_listed; spec demands both to be exactly the database (spec_loader).
+   Model side: for EVERY database with distinct (name, slot) and every enumeration order the AtomSet built by
+   AtomSet.Add holds every directory, each under its own name and slot key: nothing lost, nothing renamed. *)
+Theorem C05_loader_view : forall vdb enum,
+  (forall i j p q, pkg_at vdb i = Some p -> pkg_at vdb j = Some q -> p_pn p = p_pn q -> p_slot p = p_slot q -> i = j) ->
+  is_perm_ids (length vdb) enum = true ->
+  loaded_view vdb (installed vdb enum) = db_view vdb /\
+  listing vdb (filter (fun i => memN i enum) (ids vdb)) = map pkg_str vdb.
+Proof. intros vdb enum H1 H2. split; [now apply loaded_view_db|now apply listed_db]. Qed.
+Print Assumptions C05_loader_view.
+
+(* a directory name has at most one reading as name "-" version (PMS 3.2 version syntax): so the name the
+   harness hands over, once name_tied holds, is THE package name of that directory *)
+Theorem C05_pf_split_unique : forall n1 v1 n2 v2 : bytes,
+  (n1 ++ nb 45 :: v1 = n2 ++ nb 45 :: v2)%list ->
+  PMSGrammar.is_pms_version v1 = true -> PMSGrammar.is_pms_version v2 = true -> n1 = n2 /\ v1 = v2.
+Proof. exact pf_split_unique. Qed.
+Print Assumptions C05_pf_split_unique.
+
+(* inside the hypotheses (witness_ok: wf, kf = 0): the model's observation passes; the same observation with
+   one unneeded package missing from the loader's result, or one package under another slot key, is refused *)
+Theorem C05_loader_loss_refused :
+  let m := model witness_ok in
+  spec witness_ok m = true
+  /\ spec witness_ok (with_loaded m (removelast (o_loaded m))) = false
+  /\ spec witness_ok (with_loaded m ((bs "app-misc/a-1", (bs "app-misc/a", bs "00001")) :: tl (o_loaded m))) = false.
+Proof. destruct loader_view_witness as (H1 & _ & H2 & H3). auto. Qed.
+Print Assumptions C05_loader_loss_refused.
